@@ -34,6 +34,41 @@ type Action struct {
 type File struct {
 	Path string `json:"path"`
 	Data string `json:"data"`
+	// Work: the entry is named $WORK/<path> in the archive.  Should setup() expand that name while
+	// $WORK is still undefined the file is written to /<path>; to keep that harmless only flat names
+	// with the prefix below are accepted, and the runner looks for /<path> afterwards, reports it and
+	// removes exactly that file.
+	Work bool `json:"work,omitempty"`
+}
+
+const escapePrefix = "verif_c04_canary_"
+
+// safeWorkName: a $WORK-named entry the harness is willing to run.
+func safeWorkName(p string) bool {
+	if !strings.HasPrefix(p, escapePrefix) || len(p) > 80 {
+		return false
+	}
+	for i := 0; i < len(p); i++ {
+		c := p[i]
+		if !(c >= 'a' && c <= 'z' || c >= '0' && c <= '9' || c == '_' || c == '.') {
+			return false
+		}
+	}
+	return !strings.Contains(p, "..")
+}
+
+func (b *Batch) validate() error {
+	for _, s := range b.Scripts {
+		for _, f := range s.Files {
+			if f.Work && !safeWorkName(f.Path) {
+				return fmt.Errorf("script %s: entry $WORK/%s refused (only flat %s* names may be $WORK-named)", s.Name, f.Path, escapePrefix)
+			}
+			if strings.HasPrefix(f.Path, "/") || strings.Contains(f.Path, "..") || strings.Contains(f.Path, "$") {
+				return fmt.Errorf("script %s: entry name %q refused", s.Name, f.Path)
+			}
+		}
+	}
+	return nil
 }
 
 type KV struct {
@@ -112,6 +147,14 @@ func (s *Script) modelTokens(out *[]string) {
 	for _, f := range s.Files {
 		*out = append(*out, pathTok(f.Path), hx(fileData(f.Data)))
 	}
+	var wn []string
+	for _, f := range s.Files {
+		if f.Work {
+			wn = append(wn, pathTok(f.Path))
+		}
+	}
+	*out = append(*out, "Q", fmt.Sprint(len(wn)))
+	*out = append(*out, wn...)
 	*out = append(*out, "V", fmt.Sprint(len(s.Adds)))
 	for _, kv := range s.Adds {
 		if strings.HasPrefix(kv.V, "$WORK") {
@@ -133,7 +176,7 @@ func (s *Script) modelTokens(out *[]string) {
 // modelRequest renders the batch for the extracted model. hostEnv is the environment of the
 // process that calls RunT, hostTab the answers of a PATH search over host directories.
 func (b *Batch) modelRequest(isRoot bool, hostEnv []string, hostTab map[[2]string]bool, helperName string, sched []int) string {
-	out := []string{"batch", b01(b.Retain != ""), "1", "0", b01(isRoot), "H", fmt.Sprint(len(hostEnv))}
+	out := []string{"batch", b01(b.Retain != ""), "1", "0", b01(isRoot), "1", "H", fmt.Sprint(len(hostEnv))}
 	for _, kv := range hostEnv {
 		k, v, _ := strings.Cut(kv, "=")
 		out = append(out, hx(k), hx(v))
@@ -257,7 +300,11 @@ func (s *Script) archive() []byte {
 		}
 	}
 	for _, f := range s.Files {
-		b.WriteString("-- " + f.Path + " --\n")
+		if f.Work {
+			b.WriteString("-- $WORK/" + f.Path + " --\n")
+		} else {
+			b.WriteString("-- " + f.Path + " --\n")
+		}
 		b.WriteString(f.Data)
 		if f.Data != "" && !strings.HasSuffix(f.Data, "\n") {
 			b.WriteString("\n")
@@ -276,7 +323,7 @@ func fileData(d string) string {
 
 // ---------------------------------------------------------------- generation
 
-var filePool = []string{"a.txt", "d/b.txt", "d/e/c.txt", "bin/mytool", "x", "d", ".tmp/t", "d/e", "z/y/w.txt"}
+var filePool = []string{"a.txt", "d/b.txt", "d/e/c.txt", "bin/mytool", "x", "a.txt", ".tmp/t", "d/b.txt", "z/y/w.txt", "bin/mytool", "q/r.txt", "d", "d/e"}
 var dirPool = []string{"d", "d/e", "n", "n/m", "bin", "z", ""}
 var progPool = []string{"sh", "nosuchprog-zz", "mytool", "helper", "b.txt"}
 
@@ -341,6 +388,9 @@ func genScript(r *common.RNG, name string) Script {
 	for i := 0; i < nf; i++ {
 		s.Files = append(s.Files, File{Path: common.Pick(r, filePool), Data: common.Pick(r, []string{"", "x\n", "#!/bin/sh\nexit 0\n", "data"})})
 	}
+	if r.Chance(1, 5) {
+		s.Files = append(s.Files, File{Path: fmt.Sprintf("%s%s_%d.txt", escapePrefix, name, r.Intn(1000000)), Data: "named with $WORK\n", Work: true})
+	}
 	if r.Chance(1, 3) {
 		s.Adds = append(s.Adds, KV{"EXTRA", "v1"})
 	}
@@ -390,7 +440,7 @@ func genBatch(r *common.RNG, canNonRoot bool) Batch {
 // execCachePair is the hand-written pair of scripts whose verdicts depended on their order before
 // execCache was keyed by PATH (DESIGN.md section 8, defect 6).
 func execCachePair() Batch {
-	a := Script{Name: "a", Files: []File{{"bin/mytool", "#!/bin/sh\nexit 0\n"}},
+	a := Script{Name: "a", Files: []File{{Path: "bin/mytool", Data: "#!/bin/sh\nexit 0\n"}},
 		Body: []Action{{Op: "X", Path: "bin/mytool"}, {Op: "P", Path: "bin"},
 			{Op: "I", Key: "mytool", Sub: &Action{Op: "T"}}, {Op: "F"}}}
 	b := Script{Name: "b", DelayMs: 250,
